@@ -12,6 +12,7 @@ PROP = dict(
          'overlay or a shadowing file system; distinct by the full mountinfo text',
     explanation='theorems: unescape(mangle s)=s for all byte strings; parse_line(render_line k)=view k; '
                 'probe(render T)=view T for every well-formed table; per case Coq evaluates wf, model=obs, spec(obs)',
-    assumptions=['the kernel renders mountinfo as Model.MountInfo.render does (escape set " \\t\\n\\\\" for '
+    assumptions=['constants regenerated from the source on every run (Gen/Consts.v) that the predicate or the documented part of the model rests on -- ShadowingFsTypes -- are compared with literals by theorem C12_constants_pinned: an edit of one of them is reported (proof obligation no longer checks) and has to be reviewed; values the manual does not state are the values of the reviewed tree',
+        'the kernel renders mountinfo as Model.MountInfo.render does (escape set " \\t\\n\\\\" for '
                  'paths, plus "," for overlay options); validated against real tables in the thorough tier'],
 )
